@@ -24,10 +24,10 @@ Definition is_exception (e : exc) : bool := mem "Exception" e.
 Definition propagates (a : action) : bool :=
   match a with AReraise | ARaiseNew => true | _ => false end.
 
-Fixpoint first_match (hs : list (list cls * action)) (e : exc) : option action :=
+Fixpoint first_match (hs : list (list cls * guard * action)) (e : exc) (atrecv : bool) : option action :=
   match hs with
   | [] => None
-  | (cs, act) :: hs' => if is_any e cs then Some act else first_match hs' e
+  | (cs, g, act) :: hs' => if is_any e cs && guard_ok g atrecv then Some act else first_match hs' e atrecv
   end.
 
 Inductive caught := Caught (ord : nat) (act : action) | Uncaught.
@@ -35,8 +35,9 @@ Inductive caught := Caught (ord : nat) (act : action) | Uncaught.
 (* one connection's observable answer to one message *)
 Inductive rkind := ConnOk | ConnFail | RepNormal | RepError.
 
-(* an exception surfacing in function [f_fn] at a statement whose innermost protecting site is [f_site] *)
-Record fault := { f_fn : fn; f_site : option nat; f_exc : exc }.
+(* an exception surfacing in function [f_fn] at a statement whose innermost protecting site is [f_site];
+   [f_recv]: that statement is the function's recv_stub call *)
+Record fault := { f_fn : fn; f_site : option nat; f_recv : bool; f_exc : exc }.
 
 Record req := { q_oneway : bool; q_callback : bool }.
 Inductive evkind := EConnect | ERequest (q : req).
@@ -70,7 +71,7 @@ Definition fuel : nat := S (List.length (t_sites T)).
 
 (* Python's search for a handler inside one function: from the innermost protecting site outwards;
    a handler that re-raises hands the exception to the next enclosing site *)
-Fixpoint route_in (n : nat) (f : fn) (start : option nat) (e : exc) : caught :=
+Fixpoint route_in (n : nat) (f : fn) (start : option nat) (atrecv : bool) (e : exc) : caught :=
   match n with
   | 0 => Uncaught
   | S n' =>
@@ -80,14 +81,16 @@ Fixpoint route_in (n : nat) (f : fn) (start : option nat) (e : exc) : caught :=
       match find_site f ord with
       | None => Uncaught
       | Some s =>
-        match first_match (s_handlers s) e with
-        | Some act => if propagates act then route_in n' f (s_outer s) e else Caught ord act
-        | None => route_in n' f (s_outer s) e
+        match first_match (s_handlers s) e atrecv with
+        | Some act => if propagates act then route_in n' f (s_outer s) atrecv e else Caught ord act
+        | None => route_in n' f (s_outer s) atrecv e
         end
       end
     end
   end.
-Definition route (f : fn) (start : option nat) (e : exc) : caught := route_in fuel f start e.
+(* [route]: an exception arriving from a callee (never "at the recv_stub call"); [route_at]: one surfacing here *)
+Definition route_at (f : fn) (start : option nat) (atrecv : bool) (e : exc) : caught := route_in fuel f start atrecv e.
+Definition route (f : fn) (start : option nat) (e : exc) : caught := route_at f start false e.
 
 Definition outer_of (f : fn) (ord : nat) : option nat :=
   match find_site f ord with Some s => s_outer s | None => None end.
@@ -109,12 +112,12 @@ Fixpoint chain_has_finally (n : nat) (f : fn) (start : option nat) : bool :=
 (* ------------------------------------------------------------------ static check *)
 (* sufficient condition, independent of the exception: every exception with Exception in its mro that
    surfaces at [start] in [f] is contained inside [f] by a handler whose action satisfies [ok] *)
-Fixpoint safe_handlers (ok : action -> bool) (hs : list (list cls * action)) (rest : bool) : bool :=
+Fixpoint safe_handlers (ok : action -> bool) (hs : list (list cls * guard * action)) (rest : bool) : bool :=
   match hs with
   | [] => rest
-  | (cs, act) :: hs' =>
+  | (cs, g, act) :: hs' =>
       if propagates act then rest && safe_handlers ok hs' rest
-      else ok act && (if mem "Exception" cs then true else safe_handlers ok hs' rest)
+      else ok act && (if mem "Exception" cs && guard_ok g false && guard_ok g true then true else safe_handlers ok hs' rest)
   end.
 
 Fixpoint safe_in (n : nat) (ok : action -> bool) (f : fn) (start : option nat) : bool :=
@@ -204,7 +207,7 @@ Fixpoint hs_loop (fs : list fault) (failmode : bool) : res * option rkind * list
   match fs with
   | f :: fs' =>
       if fn_eqb (f_fn f) FHandshake then
-        match route FHandshake (f_site f) (f_exc f) with
+        match route_at FHandshake (f_site f) (f_recv f) (f_exc f) with
         | Uncaught => (RExc (f_exc f), None, fs')
         | Caught ord act =>
             match act with
@@ -224,7 +227,7 @@ Fixpoint xr_loop (fs : list fault) : res * bool * list fault :=
   match fs with
   | f :: fs' =>
       if fn_eqb (f_fn f) FSendExc then
-        match route FSendExc (f_site f) (f_exc f) with
+        match route_at FSendExc (f_site f) (f_recv f) (f_exc f) with
         | Caught _ ASwallow => xr_loop fs'
         | Caught _ (ARetTrue | ARetFalse | ARetNone) => (RNorm true, false, fs')
         | _ => (RExc (f_exc f), false, fs')
@@ -239,7 +242,7 @@ Fixpoint hr_loop (q : req) (fs : list fault) : res * option rkind * list fault :
   | f :: fs' =>
       if fn_eqb (f_fn f) FHandleRequest then
         let e := f_exc f in
-        match route FHandleRequest (f_site f) e with
+        match route_at FHandleRequest (f_site f) (f_recv f) e with
         | Uncaught => (RExc e, None, fs')
         | Caught ord AReply =>
             let rr := t_reply T in
